@@ -1,4 +1,5 @@
 import HranoModel.Lemmas.ResolveAll
+import HranoModel.Lemmas.Idem
 /-!
 C01 — nested recipes resolve to the exact sum-of-products of their ingredients.
 
@@ -108,6 +109,45 @@ theorem resolve_order_irrelevant (B : Book) (N : Nat) (o₁ o₂ : List Bytes) (
   rw [← k₁] at hnd hlk
   exact book_ext B₁ B₂ hk hnd hlk
 
+/-- **Idempotence.**  Resolving an already resolved book changes nothing (with a depth limit of at least 2: a
+    resolved recipe still refers to its basic elements, one level down). -/
+theorem resolve_idempotent (B B' : Book) (N : Nat) (o₁ o₂ : List Bytes) (hN : 2 ≤ N) (hnd : B.keys.Nodup)
+    (h₁ : ∀ n ∈ B.keys, n ∈ o₁) (h₂ : ∀ n ∈ B.keys, n ∈ o₂) (d₁ : ∀ n ∈ o₁, ¬ Chain B n N)
+    (hres : resolveAll (N : Int) B o₁ = .ok B') :
+    resolveAll (N : Int) B' o₂ = .ok B' := by
+  obtain ⟨B₁, r₁, k₁, c₁⟩ := resolve_correct B N o₁ h₁ d₁
+  rw [hres] at r₁
+  have hB : B₁ = B' := by cases r₁; rfl
+  subst hB
+  -- every ingredient of a resolved recipe is a name the book does not define
+  have hflat : ∀ n els, B₁.lookup n = some els → ∀ e ∈ els, B₁.lookup e.name = none := by
+    intro n els hl e he
+    have hn : n ∈ B.keys := k₁ ▸ Book.mem_keys_of_lookup B₁ n els hl
+    obtain ⟨h, ps, els', _, hl', hr, hleaf⟩ := c₁ n hn
+    rw [hl] at hl'
+    cases hl'
+    have : e.name ∈ ps.map (·.name) := (hr.names e.name).mp (List.mem_map_of_mem he)
+    obtain ⟨p, hp, hpe⟩ := List.mem_map.mp this
+    rw [← hpe]
+    exact (Book.lookup_none_iff_of_keys B B₁ k₁.symm p.name).mp (hleaf p hp)
+  obtain ⟨k, rfl⟩ : ∃ k, N = k + 2 := ⟨N - 2, by omega⟩
+  have d₂ : ∀ n ∈ o₂, ¬ Chain B₁ n (k + 2) := fun n _ => no_chain_two B₁ hflat n k
+  obtain ⟨B₂, r₂, k₂, c₂⟩ := resolve_correct B₁ (k + 2) o₂ (by rw [k₁]; exact h₂) d₂
+  rw [r₂]
+  congr 1
+  apply book_ext B₂ B₁ k₂ (by rw [k₂, k₁]; exact hnd)
+  intro n hn
+  rw [k₂] at hn
+  obtain ⟨h, ps, els₂, s₂, l₂, res₂, _⟩ := c₂ n hn
+  obtain ⟨h₁', ps₁, els₁, _, l₁, res₁, _⟩ := c₁ n (k₁ ▸ hn)
+  -- the paths of a resolved recipe are its own entries
+  obtain ⟨h', hsl⟩ := specList_undefined B₁ k els₁ 0 [] (hflat n els₁ l₁)
+  have hs : specNode B₁ (k + 2) n = some (h', els₁) := by
+    rw [specNode, l₁]; simpa using hsl
+  have hps : ps = els₁ := (Prod.mk.inj (Option.some.inj (s₂.symm.trans hs))).2
+  rw [hps] at res₂
+  rw [l₂, l₁, resolved_unique els₁ els₂ els₁ res₂ (resolved_self els₁ res₁.sorted res₁.nodup)]
+
 /-! non-vacuity: a three-level diamond with a repeated ingredient, a negative and a fractional coefficient
     and an empty recipe; two different visiting orders -/
 def a : Bytes := [97]
@@ -127,5 +167,10 @@ def lookupAfter (order : List Bytes) (n : Bytes) : Option Elements :=
 example : lookupAfter [a, b, c, d, [101]] a = some [⟨x, 9⟩, ⟨y, (5 : Q) / 2⟩] := by decide +kernel
 example : lookupAfter [[101], d, c, b, a] a = some [⟨x, 9⟩, ⟨y, (5 : Q) / 2⟩] := by decide +kernel
 example : ∀ n ∈ [a, b, c, d, [101]], (specNode demo 10 n).isSome := by decide +kernel
+example : (match resolveAll 10 demo [a, b, c, d, [101]] with
+    | .ok r => (match resolveAll 10 r [[101], d, c, b, a] with
+      | .ok r' => r' == r
+      | .error _ => false)
+    | .error _ => false) = true := by decide +kernel
 
 end Hrano.C01
